@@ -12,11 +12,11 @@ import copy
 ID = "C08"
 IMPORTS = ("From Boltons Require Import Lib.Prelude Lib.C08_Py Spec.C08_Spec Model.C08_Model "
            "Check.C08_Check.")
-CASE_TYPE = "c08_case"
-VERDICT = "c08_verdict"
-EXPLAIN = "c08_explain"
+CASE_TYPE = "c08_any"
+VERDICT = "c08_any_verdict"
+EXPLAIN = "c08_any_explain"
 CASES_PER_FILE = 120
-CASE_TIMEOUT = 5
+CASE_TIMEOUT = 40
 TIERS = {"quick": {"n": 1600}, "thorough": {"n": 40000, "exhaustive": True}}
 RULE = ("object graphs of <= 12 containers (list/tuple/dict/set/frozenset, empty ones included), leaves of 8 python "
         "types, sharing probability ~0.2 and back-edge (cycle) probability ~0.1, visit programs (ordered rules "
@@ -98,9 +98,16 @@ class _EqRaises(_Odd):
         raise RuntimeError("leaves have no len")
 
 
+class _ReprRaises(_Odd):
+    """remap must not need the text of a value"""
+    def __repr__(self):
+        raise RuntimeError("leaves must not be printed")
+    __str__ = __repr__
+
+
 # only ever placed where no hashing/equality is needed (not in sets, not as replacement values)
 _ODD_LEAVES = {71: float("nan"), 72: _AlwaysEq("always-eq"), 73: _NeverEq("never-eq"), 74: _EqRaises("eq-raises"),
-               75: _Odd("plain"), 76: iter(())}
+               75: _Odd("plain"), 76: iter(()), 77: _ReprRaises("repr-raises")}
 
 
 def leaf(n):
@@ -149,8 +156,8 @@ _ODD_KEYS = {9: "", 10: (), 11: b"", 12: frozenset()}
 
 
 def _tkey(o):
-    if type(o).__name__ == "tuple_iterator":
-        return ("tuple_iterator", "")
+    if type(o).__name__ in ("tuple_iterator", "_ReprRaises"):
+        return (type(o).__name__, "")
     return (type(o).__name__, repr(o))
 
 
@@ -357,7 +364,93 @@ def make_query(q, qraise=None, style=0):
 
 
 # --------------------------------------------------------------------------
+# --------------------------------------------------------------------------
+# very deep chains: built, walked and observed iteratively; compact observation
+# --------------------------------------------------------------------------
+def _walk_chain(obj, pat):
+    """kinds met walking down (first child each time) as (pattern, repetitions, remainder), and the leaf token"""
+    kinds = []
+    while type(obj) in KNAME:
+        kinds.append(KNAME[type(obj)])
+        if len(obj) != 1 or len(kinds) > 200000:
+            kinds.append("set")               # marks "not a chain": sets never occur in the input
+            obj = None
+            break
+        obj = next(iter(obj.values())) if type(obj) is dict else next(iter(obj))
+    reps, lp = 0, len(pat)
+    while lp and kinds[reps * lp:(reps + 1) * lp] == pat:
+        reps += 1
+    return [pat, reps, kinds[reps * lp:][:300]], leaf_tok(obj)
+
+
+def run_deep(case):
+    from boltons.iterutils import remap, research, get_path
+    pat, reps = case["deep"]["pat"], case["deep"]["reps"]
+    leaf_obj = leaf(case["deep"]["leaf"])
+    obj, levels = leaf_obj, []
+    for k in reversed(pat * reps):
+        obj = [obj] if k == "list" else (obj,) if k == "tuple" else {"k0": obj}
+        levels.append(obj)
+    levels.reverse()
+    root = obj
+    obs = {}
+    calls = [0, 0]
+    mode = case["deep"]["visit"]
+
+    def visit(path, key, value):
+        calls[0] += 1
+        calls[1] = max(calls[1], len(path))
+        if mode[0] == "leaf" and type(value) not in KNAME:
+            return (key, leaf(mode[1]))
+        return True
+    try:
+        out = remap(root) if mode[0] == "default" else remap(root, visit)
+        obs["out"] = ["ok"] + list(_walk_chain(out, pat))
+        shared, o = 0, out
+        for lv in levels:                      # identity of each level against the input's level
+            if type(o) not in KNAME or len(o) != 1:
+                break
+            if o is lv and type(o) is not tuple:
+                shared += 1
+            o = next(iter(o.values())) if type(o) is dict else next(iter(o))
+        obs["shared"] = shared
+        del out, o
+    except Exception as e:                     # remap is iterative: nothing may escape, whatever the depth
+        obs["out"] = ["raise", type(e).__name__]
+        obs["shared"] = 0
+    obs["calls"] = calls
+    obs["in_after"] = list(_walk_chain(root, pat))
+    try:
+        found = research(root, lambda p, k, v: type(v) not in KNAME)
+        plen, ok = 0, False
+        if found:
+            plen = len(found[-1][0])
+            ok = get_path(root, found[-1][0]) is leaf_obj and found[-1][1] is leaf_obj
+        obs["research"] = ["ok", len(found), plen, ok]
+    except Exception as e:
+        obs["research"] = ["raise", type(e).__name__]
+    return obs
+
+
+def _ckinds(d):
+    return "([%s], %d, [%s])" % ("; ".join(KCOQ[k] for k in d[0]), d[1], "; ".join(KCOQ[k] for k in d[2]))
+
+
+def deep_to_coq(case, obs):
+    d = case["deep"]
+    vis = {"default": "DVDefault", "keep": "DVKeep"}.get(d["visit"][0]) or "(DVLeaf %d)" % d["visit"][1]
+    out = "(Ok (%s, %d))" % (_ckinds(obs["out"][1]), obs["out"][2]) if obs["out"][0] == "ok" \
+        else "(Raise (OtherExn %d))" % (9 if obs["out"][1] == "RecursionError" else 11)
+    res = "(Ok (%d, %d, %s))" % (obs["research"][1], obs["research"][2], "true" if obs["research"][3] else "false") \
+        if obs["research"][0] == "ok" else "(Raise (OtherExn %d))" % (9 if obs["research"][1] == "RecursionError" else 11)
+    return "Deep (mkDeep [%s] %d %d %s %s %d %d (%s, %d) %d %s)" % (
+        "; ".join(KCOQ[k] for k in d["pat"]), d["reps"], d["leaf"], vis, out, obs["calls"][0], obs["calls"][1],
+        _ckinds(obs["in_after"][0]), obs["in_after"][1], obs["shared"], res)
+
+
 def run_impl(case):
+    if "deep" in case:
+        return run_deep(case)
     from boltons.iterutils import remap, research, get_path, PathAccessError
     root = build_graph(case["nodes"], case["root"])
     s_in = Ser()
@@ -516,6 +609,12 @@ EXN = {"TypeError": "TypeError", "RecursionError": "(OtherExn 9)", "VisitBoom": 
 
 
 def to_coq(case, obs):
+    if "deep" in case:
+        return deep_to_coq(case, obs)
+    return "Graph (%s)" % graph_to_coq(case, obs)
+
+
+def graph_to_coq(case, obs):
     visit = "None" if case["visit"] is None else \
         "(Some [%s])" % "; ".join("(%s, %s)" % (cpred(q), cact(a)) for q, a in case["visit"])
     out = "(Ok %s)" % cobj(obs["out"][1]) if obs["out"][0] == "ok" else "(Raise %s)" % EXN[obs["out"][1]]
@@ -589,7 +688,7 @@ def gen_key(rng):
 def gen_leaf(rng, odd=False):
     r = rng.random()
     if odd and r > 0.93:
-        return rng.randint(71, 76)                               # leaves with unhelpful __eq__/__bool__/hash
+        return rng.randint(71, 77)                               # leaves with unhelpful __eq__/__bool__/hash
 
     if r < 0.15:
         return rng.choice([1, 64, 65, 66, 67, 68, 69, 70])      # equal-but-different leaves
@@ -815,10 +914,23 @@ def gen_deep(rng, depth):
     return nodes, ["N", 0]
 
 
+def gen_deep_case(rng, tier):
+    """a chain of thousands of nested list/tuple/dict levels (one child each, a leaf at the bottom):
+    deeper than any recursive treatment (repr, ==, copy, a recursive helper) survives"""
+    pat = rng.choice([["list", "dict"], ["list", "dict", "tuple"], ["dict"], ["list"], ["tuple", "list"],
+                      ["dict", "list", "list", "tuple"]])
+    levels = rng.choice([2000, 5000, 12000] if tier == "quick" else [2000, 5000, 12000, 30000, 50000])
+    visit = rng.choice([["default"], ["default"], ["keep"], ["leaf", rng.randrange(4, 24)]])
+    return {"deep": {"pat": pat, "reps": max(1, levels // len(pat)), "leaf": rng.randrange(0, 24), "visit": visit}}
+
+
 def generate(rng, tier, n):
     if tier == "thorough":
         yield from small_graphs()
     for i in range(n):
+        if i % 100 == 50:
+            yield gen_deep_case(rng, tier)
+            continue
         if rng.random() < 0.015:
             nodes, root = [], ["L", gen_leaf(rng)]
         elif rng.random() < 0.03:
@@ -846,6 +958,12 @@ def generate(rng, tier, n):
 
 # --------------------------------------------------------------------------
 def corrupt(case, obs):
+    if "deep" in case:
+        if obs["out"][0] != "ok":
+            return None
+        bad = copy.deepcopy(obs)
+        bad["out"][1][1] += 1                  # one more repetition of the pattern than there is
+        return bad
     """A wrong observation for the canary: one leaf of the output replaced by an unused token,
     or (no leaf) the root's kind changed."""
     if obs["out"][0] != "ok":
@@ -882,12 +1000,19 @@ def _stats(o, st, depth=1):
 
 
 def nontrivial(case, obs):
+    if "deep" in case:
+        return True
     st = {"containers": 0, "depth": 0, "refs": 0, "kinds": set()}
     _stats(obs["in"], st)
     return st["containers"] >= 3 and (st["refs"] > 0 or (case["visit"] is not None and len(obs["calls"]) > 0))
 
 
 def distribution(d, case, obs):
+    if "deep" in case:
+        d.setdefault("deep_chains", {})
+        k = "%d levels, %s" % (len(case["deep"]["pat"]) * case["deep"]["reps"], case["deep"]["visit"][0])
+        d["deep_chains"][k] = d["deep_chains"].get(k, 0) + 1
+        return
     st = {"containers": 0, "depth": 0, "refs": 0, "kinds": set()}
     _stats(obs["in"], st)
 
@@ -909,7 +1034,8 @@ def distribution(d, case, obs):
 
 def extra_evidence(results):
     """counts for the evidence file: how much of each observation kind this run contained"""
-    ok = [r for r in results if not r.get("abnormal")]
+    deep = [r for r in results if "deep" in r["case"]]
+    ok = [r for r in results if not r.get("abnormal") and "deep" not in r["case"]]
     probes = sum(len(r["obs"].get("probes", [])) for r in ok)
     return {
         "spec_validation": {"what": "Spec.spec_remap (default visit) compared with copy.deepcopy(root) in Coq (folded into agree)",
@@ -922,16 +1048,28 @@ def extra_evidence(results):
         "visit_raised_and_propagated": sum(1 for r in ok if r["obs"].get("out", ["ok"])[0] == "raise" and r["obs"]["out"][1] == "VisitBoom"),
         "cases_inside_a_known_guard": sum(1 for r in results if r.get("known") and not r.get("holds")),
         "deep_chain_cases": sum(1 for r in ok if len(r["case"].get("nodes", [])) >= 16),
+        "very_deep_cases": len(deep),
+        "very_deep_max_levels": max([len(r["case"]["deep"]["pat"]) * r["case"]["deep"]["reps"] for r in deep] or [0]),
     }
 
 
 def sample(case, obs):
+    if "deep" in case:
+        return {"deep": case["deep"], "obs": obs}
     return {"nodes": case["nodes"], "root": case["root"], "visit": case["visit"], "query": case["query"],
             "out": obs["out"], "calls": obs["calls"][:5],
             "research": obs["research"][1][:5] if obs["research"][0] == "ok" else obs["research"]}
 
 
 def shrink(case):
+    if "deep" in case:
+        r = case["deep"]["reps"]
+        for nr in (r // 2, r // 4, 400, 100, 10, 1):
+            if 0 < nr < r:
+                c = copy.deepcopy(case)
+                c["deep"]["reps"] = nr
+                yield c
+        return
     """smaller cases: simpler program/query, a child removed, a node's children emptied"""
     if case["visit"]:
         for i in range(len(case["visit"])):
